@@ -68,7 +68,8 @@ Silent(m, now) == \E k \in DOMAIN gens : k[1] = m /\ k[2] # 0 /\ gens[k].offered
 Due(g, now) == IF g.due < 0 /\ ~g.ended THEN [g EXCEPT !.due = now] ELSE g
 \* C15 "ends it promptly": a generation that got a reason to end more than Grace ms ago has ended
 Grace == 1500
-Overdue(m, now) == \E k \in DOMAIN gens : k[1] = m /\ k[2] # 0 /\ gens[k].due >= 0 /\ ~gens[k].ended /\ now - gens[k].due > Grace
+\* (born >= 0: a generation the application was handed; the hooks of one it never received are not recorded, see above)
+Overdue(m, now) == \E k \in DOMAIN gens : k[1] = m /\ k[2] # 0 /\ gens[k].born >= 0 /\ gens[k].due >= 0 /\ ~gens[k].ended /\ now - gens[k].due > Grace
 Coord(e) ==
   LET owner == e.owner IN
   CASE e.api = "join" ->
@@ -109,9 +110,13 @@ Coord(e) ==
                       THEN {"C03_DeliveredBeforeCovered"} ELSE {})
          /\ UNCHANGED <<tid, cfg, stored, asked, delivered, fetched, stream, reading, closedAt, joined, left, faulted, gens, lastFail, closing>>
     [] e.api = "heartbeat" ->
-         /\ gens' = [k \in DOMAIN gens |->
+         \* (the Generation hooks of a generation the application has not received yet are recorded only when Next returns it:
+         \* a heartbeat may be the first event that mentions the generation)
+         /\ gens' = LET k0 == <<MOf(owner), e.generation>>
+                        base == IF k0 \in DOMAIN gens THEN gens ELSE Put(gens, k0, NewGen) IN
+                    [k \in DOMAIN base |->
                        IF OwnerOf(k[1]) = owner /\ k[2] = e.generation
-                         THEN (IF e.code # 0 THEN Due([gens[k] EXCEPT !.lastHb = e.ts, !.cause = TRUE], e.ts) ELSE [gens[k] EXCEPT !.lastHb = e.ts]) ELSE gens[k]]
+                         THEN (IF e.code # 0 THEN Due([base[k] EXCEPT !.lastHb = e.ts, !.cause = TRUE], e.ts) ELSE [base[k] EXCEPT !.lastHb = e.ts]) ELSE base[k]]
          /\ viol' = viol \cup LateCheck(e, owner)
               \cup (IF \E k \in DOMAIN gens : OwnerOf(k[1]) = owner /\ k[2] = e.generation /\ gens[k].closed
                       THEN {"C15_NoHeartbeatAfterEnd"} ELSE {})
@@ -250,9 +255,13 @@ Upd(e) ==
                                              THEN Due([gens[k] EXCEPT !.cause = TRUE], e.ts) ELSE [gens[k] EXCEPT !.cause = TRUE]]
          /\ UNCHANGED <<tid, stored, committed, asked, delivered, fetched, stream, pending, reading, closedAt, joined, left, faulted, lastFail, closing, viol>>
     [] e.ev = "offered" ->
-         /\ gens' = Put(gens, <<e.m, e.gen>>, [Get(gens, <<e.m, e.gen>>, NewGen) EXCEPT
-                                                !.offered = IF Get(gens, <<e.m, 0>>, NewGen).offered >= 0 THEN gens[<<e.m, 0>>].offered ELSE e.ts])
-         /\ UNCHANGED <<tid, cfg, stored, committed, asked, delivered, fetched, stream, pending, reading, closedAt, joined, left, faulted, lastFail, closing, viol>>
+         \* (the hook fires when Next has taken the generation; the application may have recorded next.return already)
+         LET ready == Get(gens, <<e.m, 0>>, NewGen).offered
+             g0 == Get(gens, <<e.m, e.gen>>, NewGen) IN
+         /\ gens' = Put(gens, <<e.m, e.gen>>, [g0 EXCEPT !.offered = IF ready >= 0 THEN ready ELSE e.ts])
+         \* live since `ready`, handed out only now, and not one heartbeat has reached the coordinator in between
+         /\ viol' = viol \cup (IF ready >= 0 /\ e.ts - ready > HbSlack /\ g0.lastHb < 0 THEN {"C15_HeartbeatInterval"} ELSE {})
+         /\ UNCHANGED <<tid, cfg, stored, committed, asked, delivered, fetched, stream, pending, reading, closedAt, joined, left, faulted, lastFail, closing>>
     [] e.ev = "next.return" ->
          \* Next hands out a generation only when every tracked function of the earlier ones has returned
          /\ viol' = viol \cup (IF \E k \in DOMAIN gens : k[1] = e.m /\ k[2] < e.gen /\ gens[k].routines # 0
